@@ -126,7 +126,7 @@ def check(ctx):
             r.notes.append("stale exemption (no matching site any more): %s | %s" % k)
     r.notes.append("%d compiler-inserted pointer alignment/null checks on safe references (cannot fail in safe code) not counted" % ptr_checks)
     r.notes.append("discharged per kind: %s" % ", ".join("%s=%d" % kv for kv in sorted(counts.items())))
-    r.require_floor(120, "panic-capable sites")
+    r.require_floor(60, "panic-capable sites")
     rules.append(r)
 
     # ---------------------------------------------------------------- isolation
